@@ -385,6 +385,18 @@ class WithOptions(Evaluatable[B]):
             else mix(self.options, options)  # type: ignore
         )
 
+    def _supplied(self, key: str, options: Options) -> bool:
+        """Whether the value under key comes from the wrapper's options alone."""
+        if not dotted_key_exists(key, self.options):
+            return False
+        if not dotted_key_exists(key, options):
+            return True
+        # A forced section is merged with the section provided by the caller
+        return self.force and not (
+            isinstance(get_dotted_key(key, self.options), dict)
+            and isinstance(get_dotted_key(key, options), dict)
+        )
+
     def evaluate(self, options: Options) -> B:
         """Evaluate the wrapped Evaluatable object with the provided options."""
         return self.evaluatable.evaluate(self._options(options))
@@ -398,10 +410,7 @@ class WithOptions(Evaluatable[B]):
         return {
             key
             for key in self.evaluatable.keys(self._options(options))
-            if not (
-                dotted_key_exists(key, self.options)
-                and (self.force or not dotted_key_exists(key, options))
-            )
+            if not self._supplied(key, options)
         }
 
     def explain(self, options: Optional[Options] = None) -> Set[str]:
@@ -410,10 +419,7 @@ class WithOptions(Evaluatable[B]):
         return {
             key
             for key in self.evaluatable.explain(self._options(options))
-            if not (
-                dotted_key_exists(key, self.options)
-                and (self.force or not dotted_key_exists(key, options))
-            )
+            if not self._supplied(key, options)
         }
 
     def __repr__(self) -> str:
